@@ -16,7 +16,7 @@ repo = os.path.join(base, "repo")
 if os.path.exists(repo):
     shutil.rmtree(repo)
 os.makedirs(base, exist_ok=True)
-shutil.copytree("/repo", repo, ignore=shutil.ignore_patterns("target", ".git"), symlinks=True)
+shutil.copytree(os.environ.get("MUT_BASE", "/repo"), repo, ignore=shutil.ignore_patterns("target", ".git"), symlinks=True)
 r = subprocess.run(["patch", "-p1", "-i", patch], cwd=repo, capture_output=True, text=True)
 if r.returncode != 0:
     print("patch failed:", r.stdout[-500:], r.stderr[-500:]); sys.exit(2)
